@@ -12,7 +12,7 @@ RULE = ('case = (solver, termination tree, program over Step/Solve/SetEvaluation
 ASSUMPTIONS = ['"Solve always returns" is restated as bounded progress: the number of Steps inside Solve is bounded by the limits in force (+ slack); a watchdog firing is inconclusive',
                'limits are compared with the real iteration and cost-call counts kept by the harness',
                'wall-clock time plays no role (TimeLimits is not used)']
-CLASSES = {'programs': {'quick': 1440, 'thorough': 18000}, 'wrappers': {'quick': 600, 'thorough': 9000}}
+CLASSES = {'programs': {'quick': 1440, 'thorough': 18000}, 'default_limits': {'quick': 240, 'thorough': 3000}, 'wrappers': {'quick': 600, 'thorough': 9000}}
 MIN_EVENTS = {'quick': {'assert:c05': 3000, 'stop_condition_held_at_entry': 300, 'iterations': 1500}}
 CASE_TIMEOUT = 120
 
@@ -23,7 +23,7 @@ def run_case(cls, idx, rng, obs):
     np.seterr(all='ignore')
     if cls == 'wrappers':
         return run_wrapper(rng, obs)
-    cfg = A.gen_program(rng, 'c05')
+    cfg = A.gen_default_limits_program(rng) if cls == 'default_limits' else A.gen_program(rng, 'c05')
     obs.desc = cfg
     tmp = os.path.join(env.OUT, 'c05', '%d-%d' % (idx, os.getpid()))
     os.makedirs(tmp, exist_ok=True)
